@@ -240,3 +240,9 @@ define_vm!(VmJ, OmJ, min = 8, max = 8, fill = 0, ref_offset = 0,
     mark = VMLocalMarkBitSpec::in_header(0),
     pin = VMLocalPinningBitSpec::in_header(-5),
     los = VMLocalLOSMarkNurserySpec::in_header(-4));
+
+// VmD: MIN 16 / MAX 256, gap filling with 0xcd.
+define_vm!(VmD, OmD, min = 16, max = 256, fill = 0xcd, ref_offset = 0,
+    log = VMGlobalLogBitSpec::side_first(),
+    fwd_ptr = VMLocalForwardingPointerSpec::in_header(0),
+    fwd_bits = SIDE_FB, mark = SIDE_MK, pin = SIDE_PIN, los = SIDE_LOS);
